@@ -58,7 +58,7 @@ def gen_value(rng, kind):
         cost = None
         if rng.chance(1, 2):
             cost = position.Cost(rng.choice([D('10'), D('12.80'), D('0.5')]), 'USD', datetime.date(2020, 1, rng.range(1, 9)),
-                                 rng.choice([None, 'lot1']))
+                                 rng.choice([None, 'lot1', 'a-much-longer-lot-label', 'x']))
         return position.Position(amount.Amount(rng.choice(DECS[:10]), rng.choice(CURS)), cost)
     if kind == 'inventory':
         inv = inventory.Inventory()
@@ -129,7 +129,7 @@ def build_line(mode, kinds, headers, rows, opts, nullvalue, listsep, dcontext):
     return line, fits
 
 
-def text_oracles(ctx, text, kinds, headers, rows, opts, nullvalue):
+def text_oracles(ctx, text, kinds, headers, rows, opts, nullvalue, dcontext=None):
     lines = text.split('\n')
     if lines and lines[-1] == '':
         lines = lines[:-1]
@@ -171,6 +171,12 @@ def text_oracles(ctx, text, kinds, headers, rows, opts, nullvalue):
                             problems.append('bool cell %r != %r' % (s, v))
                         if kind == 'str' and s != v.strip():
                             problems.append('str cell %r != %r' % (s, v))
+                        if kind == 'amount' and dcontext is not None:
+                            # an amount reads back at the ledger's display precision for its currency
+                            want = dcontext.build().format(v.number, v.currency).strip()
+                            parts = s.split()
+                            if len(parts) != 2 or parts[1] != v.currency or parts[0] != want:
+                                problems.append('amount cell %r, expected %s %s' % (s, want, v.currency))
                     except Exception as exc:  # noqa: BLE001
                         problems.append('cell %r of kind %s does not read back (%s)' % (s, kind, type(exc).__name__))
             # decimal points aligned
@@ -229,7 +235,7 @@ def run_case(ctx, rng):
         lines = lines[:-1]
     ctx.check('text', [line], lambda: '\\n'.join(lines), nontrivial=nrows >= 2 and ncols >= 2, payload=payload,
               meta={'kinds': kinds, 'opts': opts})
-    problems = text_oracles(ctx, text, kinds, headers, rows, opts, nullvalue)
+    problems = text_oracles(ctx, text, kinds, headers, rows, opts, nullvalue, dcontext)
     if problems:
         ctx.record_violation('text-oracle', '; '.join(problems[:4]) + ' in\n' + text[:600], payload=payload)
     # CSV
